@@ -8,7 +8,12 @@ GO_RUNS = [
 RUN_MODULE = "Run_C20"
 COQ_TARGETS = ["Corr/Run_C20.vo", "Corr/Run_C20B.vo", "Proofs/KeystoreProofs.vo", "Proofs/ResetKeystoreProofs.vo"]
 N = {"quick": 400, "thorough": 12000}
-RULE = ("two kinds of cases. plain (2 of 3): random histories of 3-60 operations on the real keystore over a recording, "
+RULE = ("bounded-buffer run (a quarter of the cases, numbered from 100000): the real ResettableKeystore with WithResetBufferCapacity 1-3 and batch size 1-4 in a "
+        "testing/synctest bubble; 0-5 keys before, ResetCids with 1-8 keys fed with pauses of 0-30 ms, every datastore call delayed by 0-2 ms of virtual time "
+        "(Sync and Query by 10-40 ms), 0-3 Puts at random instants (half of them larger than the buffer) and, in 3 of 4 cases, one Put larger than the buffer "
+        "launched from inside the n-th sync/query/has/commit call made on behalf of the reset; 20% of the cases cancel the reset at a random instant; "
+        "then Get \"\" and Size of the live keystore and of a keystore reopened after Close; judged by the final-state clause of the property (Run_C20B.v). "
+        "model-backed run: two kinds of cases. plain (2 of 3): random histories of 3-60 operations on the real keystore over a recording, "
         "fault-injecting datastore: put/delete (1-6 keys, 4% with a repeated key)/empty, each with a 12% chance of one failing "
         "Has/Commit/Sync, get/count/contains with prefixes of 0-16 bits around clustered keys or (one in eight) the complete 256-bit identifier of a pool key (prefixBits 0/8/16, batch size 1-5 or 64), "
         "clean restarts, and crashes cutting the journal anywhere inside the last operation; non-trivial when a branch among "
@@ -55,7 +60,8 @@ LEVEL_TEXT = ("Theorems in coq/Props/C20.v hold for histories and interleavings 
               "puts and a matching size; any failing datastore call of the reset, including the marker write, leaves the complete old set; "
               "the worker can always return to its idle loop. The three defects this check found (fixed in /repo: 47a8290, bdb3b1c, 83723a5) "
               "stay as fixed scenarios in every run.")
-LEVEL_NOTE = ("Proof is about the Gallina models; the tie to the Go code is the correspondence run (differential testing, bounded by the "
+LEVEL_NOTE = ("The reset model has an unbounded put buffer: runs with a bounded buffer (WithResetBufferCapacity 1-3, Puts staged in pieces) are judged "
+              "by the property's final-state clause on the implementation's observations only, not by c20_reset_atomic. Proof is about the Gallina models; the tie to the Go code is the correspondence run (differential testing, bounded by the "
               "generator) plus the Go-side oracle. Partial: failing marker Sync, failures inside the teardown and failing datastore calls of "
               "concurrent Puts during a reset are not modelled (oracle only); factory mode is not covered; continuing a history after a "
               "crash of the resettable keystore is proved only for the plain keystore (part 1).")
